@@ -103,8 +103,16 @@ class CoreRun:
         case['expected'] (the spec's observables) for mismatches."""
         byid = {c["id"]: c for c in cases}
         d = out_dir(self.pid)
-        for start in range(0, len(cases), self.chunk):
-            part = cases[start:start + self.chunk]
+        # a run that exhausted the instruction budget cannot be judged: the spec would only burn its fuel
+        todo = []
+        for c in cases:
+            if c["obs"]["status"] == "budget":
+                c["verdict"] = "skip"
+                c["skipwhy"] = "budget"
+            else:
+                todo.append(c)
+        for start in range(0, len(todo), self.chunk):
+            part = todo[start:start + self.chunk]
             path = os.path.join(d, "%s_%d.ndjson" % (tag, start))
             with open(path, "w") as f:
                 for c in part:
